@@ -51,11 +51,14 @@ def mat(v, B=None):
             if t == "date":
                 return dt.date.fromisoformat(v["v"])
             if t == "datetime":
-                if v.get("zi") and v.get("tz"):
+                if v.get("zi") and v.get("tz") and not v.get("conv"):
                     from zoneinfo import ZoneInfo   # zone-aware without pytz: datetime with a zoneinfo tzinfo
                     return pd.Timestamp(v["v"]).to_pydatetime().replace(tzinfo=ZoneInfo(v["tz"]))
                 ts = pd.Timestamp(v["v"], tz=v.get("tz"))
                 if v.get("conv"):
+                    if v.get("zi"):
+                        from zoneinfo import ZoneInfo
+                        return ts.tz_convert(ZoneInfo(v["conv"])).to_pydatetime()   # zone-aware through zoneinfo, not pytz
                     ts = ts.tz_convert(v["conv"])
                 return ts.to_pydatetime()
             if t == "np_int":
@@ -69,6 +72,8 @@ def mat(v, B=None):
                 return ts
             if t == "nd":
                 return np.array(v["v"], dtype=float)
+            if t == "nd32":
+                return np.array(v["v"], dtype=np.float32)   # single precision array
             if t == "nd_int":
                 return np.array(v["v"], dtype=int)
             if t == "nd_bool":
@@ -334,10 +339,13 @@ def gen_grid(env, gid=None, freq=None, T=None, tz="env", start_shift=True, mtu=N
         shift = pd.Timedelta(hours=rng.choice([0, 0, 1, 2, 3])) if freq in ("h", "15min") else pd.Timedelta(0)
         s_utc = (pd.Timestamp(start, tz=tz).tz_convert("UTC") + shift)
         e_utc = (pd.Timestamp(end, tz=tz).tz_convert("UTC") + shift)
-        kind = rng.choice(["ts", "datetime"])
+        kind = rng.choice(["ts", "datetime", "datetime"])
         g = {"start": {"$t": kind, "v": iso(s_utc.tz_localize(None)), "tz": "UTC", "conv": tz},
              "end": {"$t": kind, "v": iso(e_utc.tz_localize(None)), "tz": "UTC", "conv": tz},
              "freq": freq, "mtu": mtu, "tz": None, "date_zone": tz}
+        if kind == "datetime" and rng.random() < 0.5:
+            g["start"]["zi"] = True     # both ends carry a zoneinfo tzinfo (pandas would map a zone *string* to pytz)
+            g["end"]["zi"] = True
         env.param_tz = tz           # such a grid only accepts zone-aware interval data and windows
         if env.window_kind == "date":
             env.window_kind = "ts"
@@ -490,8 +498,10 @@ def value_form(rng, vals):
     r = rng.random()
     if r < 0.45:
         return vals
-    if r < 0.75:
+    if r < 0.65:
         return t_nd(vals)
+    if r < 0.75:
+        return {"$t": "nd32", "v": [float(v) for v in vals]}
     ints = [int(round(v)) for v in vals]
     if all(i != 0 for i in ints) or all(v == 0 for v in vals):
         return ints if r < 0.85 else {"$t": "nd_int", "v": ints}
